@@ -19,6 +19,7 @@ func checkC01(c *Check) {
 	c.callbacksFromFSMOnly("C01.5 callbacks-on-fsm-goroutine")
 	c.handlerDiscipline("C01.6 callback-protocol")
 	c.oneOpenPerConnection("C01.6 capabilities-once-per-open")
+	c.cleanupOnExit("C01.6 connection-released-before-re-entry")
 	c.disableEnablePairing("C01.7 fsm-table-consistent")
 	c.fsmSlotTypestate("C01.7 fsm-slot-typestate")
 	c.peerConfigVerbatim("C01.7 one-manager-per-peer")
